@@ -24,6 +24,7 @@ package bfgs
 
 /* -------------------------------------------------------------------------- */
 
+import "github.com/pbenner/autodiff/verifhook"
 import   "fmt"
 import   "math"
 
@@ -239,6 +240,7 @@ func bfgs(f_ Objective, f ObjectiveInSitu, x0 Vector, H0 Matrix, epsilon Epsilon
   // keep track of whether H has been updated before
   first_update := true
   for i := 0; i < maxIterations.Value; i++ {
+    verifhook.Tick("bfgs.iter")
     bgfs_computeDirection(x1, y1, g1, H1, p1)
     // line search objective
     phi := func(alpha ConstScalar) (MagicScalar, error) {
